@@ -42,3 +42,149 @@ Proof.
   replace (Z.to_nat (Z.of_nat (n + m) - Z.of_nat n)) with m by lia.
   rewrite Nat2Z.id. rewrite map_add_seq. f_equal. lia.
 Qed.
+
+(* ---------- the column-wise views ---------- *)
+Definition F (nc : string * lcol) : string * kind * list val := (fst nc, lc_kind (snd nc), lc_cells (snd nc)).
+
+Lemma lview_view t :
+  Forall (fun ni : string * nat => snd ni < List.length (l_cols t)) (l_names t) ->
+  view (abs t) = map F (lview t).
+Proof.
+  unfold view, lview. change (names (abs t)) with (l_names t). change (slots (abs t)) with (map slot_of_col (l_cols t)).
+  induction (l_names t) as [|[n i] r IH]; intros H; [reflexivity|].
+  inversion H as [|? ? Hi Hr]; subst. cbn [map flat_map snd] in *.
+  rewrite nth_error_map. destruct (nth_error (l_cols t) i) as [c|] eqn:E.
+  - cbn [option_map app map]. f_equal. apply IH. assumption.
+  - apply nth_error_None in E. lia.
+Qed.
+
+Lemma lview_In t n c : In (n, c) (lview t) -> In c (l_cols t).
+Proof.
+  unfold lview. rewrite in_flat_map. intros [[m i] [_ H]].
+  destruct (nth_error (l_cols t) i) as [c'|] eqn:E; [|contradiction].
+  destruct H as [H|[]]. injection H as _ <-. eapply nth_error_In. eassumption.
+Qed.
+
+Lemma lookup_mapF n (V : list (string * lcol)) :
+  lookup n (map (fun '(m, k, c) => (m, (k, c))) (map F V)) = option_map (fun c => (lc_kind c, lc_cells c)) (lookup n V).
+Proof.
+  induction V as [|[m c] V IH]; [reflexivity|]. cbn [map F fst snd lookup].
+  destruct (String.eqb n m); [reflexivity|exact IH].
+Qed.
+
+Lemma lookup_mapF' n (V : list (string * lcol)) :
+  lookup n (map (fun x : string * lcol => (fst x, (lc_kind (snd x), lc_cells (snd x)))) V)
+  = option_map (fun c => (lc_kind c, lc_cells c)) (lookup n V).
+Proof.
+  induction V as [|[m c] V IH]; [reflexivity|]. cbn [map fst snd lookup].
+  destruct (String.eqb n m); [reflexivity|exact IH].
+Qed.
+
+Definition to_l0 (nc : string * lcol) : string * slot := (fst nc, slot_of_col (snd nc)).
+
+Lemma fill_left_spec na nb (cells : list val) d :
+  List.length cells = na ->
+  write_at (slice_pos (na + nb) None (Some (Z.of_nat na))) cells (repeat d (na + nb)) = cells ++ repeat d nb.
+Proof.
+  intros Hl. rewrite slice_pos_left. rewrite <- Hl at 1.
+  pose proof (write_at_run cells [] (repeat d (na + nb))) as H. cbn [List.length app] in H.
+  rewrite H by (rewrite repeat_length; lia).
+  f_equal. rewrite Hl, repeat_app, skipn_app, repeat_length, Nat.sub_diag.
+  rewrite skipn_all2 by (rewrite repeat_length; lia). reflexivity.
+Qed.
+
+Lemma fill_right_spec na nb (pre c2 : list val) d :
+  List.length pre = na -> List.length c2 = nb ->
+  write_at (slice_pos (na + nb) (Some (Z.of_nat na)) None) c2 (pre ++ repeat d nb) = pre ++ c2.
+Proof.
+  intros Hp Hc. rewrite slice_pos_right. rewrite <- Hp at 1. rewrite <- Hc at 1.
+  rewrite write_at_run by (rewrite repeat_length; lia).
+  rewrite Hc, skipn_all2 by (rewrite repeat_length; lia). rewrite app_nil_r. reflexivity.
+Qed.
+
+Lemma existsb_ext_in {A} (f g : A -> bool) l : (forall x, In x l -> f x = g x) -> existsb f l = existsb g l.
+Proof. induction l as [|a l IH]; intros H; [reflexivity|]. cbn [existsb]. rewrite (H a (or_introl eq_refl)), IH; [reflexivity|]. intros x Hx. apply H. right. exact Hx. Qed.
+
+Lemma existsb_map' {A B} (f : B -> bool) (g : A -> B) l : existsb f (map g l) = existsb (fun x => f (g x)) l.
+Proof. induction l as [|a l IH]; [reflexivity|]. cbn [map existsb]. rewrite IH. reflexivity. Qed.
+
+Lemma inv_lview_len t : inv_b t = true -> forall n c, In (n, c) (lview t) -> List.length (lc_cells c) = nrows_l t.
+Proof.
+  intros Hinv n c Hin. destruct (inv_b_facts t Hinv) as (_ & _ & _ & Hcols & _).
+  rewrite Forall_forall in Hcols. destruct (Hcols c (lview_In t n c Hin)) as [_ Hl _]. exact Hl.
+Qed.
+
+Lemma colsb_eq (VA : list (string * lcol)) na nb : forall VB : list (string * lcol),
+  (forall n c, In (n, c) VB -> List.length (lc_cells c) = nb) ->
+  map to_l0
+    (flat_map (fun '(n, c) =>
+                 match lookup n VA with
+                 | Some _ => []
+                 | None => [(n, {| lc_kind := lc_kind c; lc_rowid := idx_of_list (iotaN 0 (na + nb));
+                                   lc_cells := fill_slice (na + nb) (Some (Z.of_nat na)) None (lc_cells c) (lc_kind c)
+                                                          (repeat (default_cell (lc_kind c)) (na + nb));
+                                   lc_owner := true; lc_tc := true |})]
+                 end) VB)
+  = flat_map (fun '(n, k, c) =>
+                match lookup n (map (fun '(m, k0, c0) => (m, (k0, c0))) (map F VA)) with
+                | Some _ => []
+                | None => [(n, {| skind := k; scells := repeat (default_cell k) na ++ c |})]
+                end) (map F VB).
+Proof.
+  induction VB as [|[n c] V IH]; intros Hl; [reflexivity|]. cbn [flat_map map F fst snd].
+  rewrite lookup_mapF. rewrite map_app.
+  rewrite IH by (intros m x Hx; apply (Hl m x); right; exact Hx).
+  f_equal. destruct (lookup n VA) as [c1|]; cbn [option_map]; [reflexivity|].
+  cbn [map]. unfold to_l0, slot_of_col. cbn [fst snd lc_kind lc_cells]. f_equal. f_equal. f_equal.
+  unfold fill_slice. rewrite repeat_app.
+  apply fill_right_spec; [apply repeat_length|apply (Hl n c); left; reflexivity].
+Qed.
+
+Theorem concat_refines a b nf :
+  inv_b a = true -> inv_b b = true ->
+  match concat_l a b nf with
+  | Ok r => concat_tables (abs a) (abs b) nf = Ok (abs r)
+  | Raise e => concat_tables (abs a) (abs b) nf = Raise e
+  end.
+Proof.
+  intros Ha Hb.
+  destruct (inv_b_facts a Ha) as (_ & _ & _ & _ & Hna). destruct (inv_b_facts b Hb) as (_ & _ & _ & _ & Hnb).
+  pose proof (inv_lview_len a Ha) as La. pose proof (inv_lview_len b Hb) as Lb.
+  unfold concat_l, concat_tables.
+  rewrite (lview_view a Hna), (lview_view b Hnb).
+  change (nrows (abs a)) with (nrows_l a). change (nrows (abs b)) with (nrows_l b).
+  set (na := nrows_l a) in *. set (nb := nrows_l b) in *.
+  set (VA := lview a) in *. set (VB := lview b) in *.
+  unfold k_concat_len, k_concat_left_stop, k_concat_right_start.
+  replace (Z.to_nat (Z.of_nat na + Z.of_nat nb)) with (na + nb) by lia.
+  (* the type test *)
+  match goal with |- context [existsb ?f (map F VB)] =>
+    assert (Hex : existsb f (map F VB)
+                  = existsb (fun '(n, c) => match lookup n VA with
+                                            | Some c2 => negb (kind_eqb (lc_kind c) (lc_kind c2))
+                                            | None => false end) VB) end.
+  { rewrite existsb_map'. apply existsb_ext_in. intros [n c] _. cbn [F fst snd]. rewrite lookup_mapF.
+    destruct (lookup n VA) as [c2|]; reflexivity. }
+  rewrite Hex. clear Hex.
+  match goal with |- context [if ?c then _ else _] => destruct c end; [reflexivity|].
+  (* the columns *)
+  f_equal. unfold abs.
+  cbn [l_fam l_rowid l_names l_cols l_sorted l_dflt idx_range ia].
+  match goal with |- context [map snd (?ca ++ ?cb)] => set (CA := ca); set (CB := cb) end.
+  match goal with |- _ = {| fam := _; ids := _; names := combine (map fst (?ca0 ++ ?cb0)) _; slots := _; tsorted := _; dflt := _ |} =>
+    set (CA0 := ca0); set (CB0 := cb0) end.
+  assert (HA : map to_l0 CA0 = CA).
+  { unfold CA, CA0. rewrite !map_map. apply map_ext_in. intros [n c] Hin. cbn [F fst snd to_l0].
+    unfold to_l0, slot_of_col. cbn [fst snd lc_kind lc_cells]. f_equal. f_equal.
+    rewrite ?lookup_mapF, ?lookup_mapF'. unfold fill_slice.
+    destruct (lookup n VB) as [c2|] eqn:E2; cbn [option_map].
+    - rewrite (fill_left_spec na nb _ _ (La n c Hin)).
+      apply fill_right_spec; [apply (La n c Hin)|].
+      apply (Lb n c2). clear - E2. induction VB as [|[m x] V IH]; [discriminate|]. cbn [lookup] in E2.
+      destruct (String.eqb n m) eqn:Em; [injection E2 as ->; apply String.eqb_eq in Em; subst; left; reflexivity|right; apply IH; exact E2].
+    - apply fill_left_spec. apply (La n c Hin). }
+  assert (HB : map to_l0 CB0 = CB) by (unfold CB, CB0; apply colsb_eq; exact Lb).
+  assert (HAB : map to_l0 (CA0 ++ CB0) = CA ++ CB) by (rewrite map_app, HA, HB; reflexivity).
+  rewrite <- HAB. rewrite !map_map, map_length.
+  f_equal.
+Qed.
